@@ -1215,14 +1215,18 @@ fn apply_replaces(src: &str, lo: usize, hi: usize, reps: &[ReplaceCfg], edits: &
 				seq: *seq,
 			});
 		}
+		// The expected counts document the unchanged tree. A different count on a changed tree is NOT fatal: the idiom may
+		// simply have been rewritten; whatever is left un-lowered is either accepted by Verus or ends in exit 2 there.
 		if let Some(c) = r.count {
 			if n != c {
-				die(&format!("lowering {} pattern /{}/ matched {} times, expected {}", r.rule, r.pattern, n, c));
+				eprintln!("vx: note: lowering {} pattern /{}/ matched {} times, expected {}", r.rule, r.pattern, n, c);
+				*rules.entry("count-drift".to_string()).or_insert(0) += 1;
 			}
 		}
 		if let Some(c) = r.min {
 			if n < c {
-				die(&format!("lowering {} pattern /{}/ matched {} times, expected >= {}", r.rule, r.pattern, n, c));
+				eprintln!("vx: note: lowering {} pattern /{}/ matched {} times, expected >= {}", r.rule, r.pattern, n, c);
+				*rules.entry("count-drift".to_string()).or_insert(0) += 1;
 			}
 		}
 	}
